@@ -548,10 +548,21 @@ func c19S1(l *core.Ledger, r *rt) {
 // nodes without an error first. Keys not in the table carry no obligation.
 func c19S4(l *core.Ledger, k keyDef, m *keyModel, states []absElem, less func(a, b absElem) bool) {
 	want, ok := map[string]string{"ID": "int", "Port": "int", "LastNodeError": "nil-first"}[k.name]
-	if !ok || len(m.projs) != 1 {
+	if !ok {
 		return
 	}
 	construct := "gorums." + k.name
+	if len(m.projs) != 1 {
+		// a key that also looks at something else never reports a tie on its own criterion:
+		// in OrderedBy(k, later...) the later keys are never consulted for nodes equal under k
+		var ps []string
+		for c := range m.projs {
+			ps = append(ps, c)
+		}
+		sort.Strings(ps)
+		l.Bad("C19-S4", construct, k.pos, fmt.Sprintf("the %s key compares more than its own criterion (%v): nodes that are equal under %s are ordered by the key itself instead of by the keys that follow it", k.name, ps, k.name))
+		return
+	}
 	var canon string
 	var kind projKind
 	for c, kd := range m.projs {
